@@ -42,7 +42,7 @@ func init() {
 		Real: []string{"signaling/rpc/server.Server (Session, Listen)", "signaling/rpc/client.Client (Send, Recv, AddPeerRef, session tracker routine)",
 			"util keyed.KeyedRefCount, routine.RoutineContainer, backoff", "peer.SignedMsg signing and verification"},
 		Stub:       []string{"srpc transport replaced by simulator-owned message streams (worlds/sig.Net)", "stream identity callback", "util/broadcast lock instrumented (scheduling points)"},
-		FaultKinds: []string{"fault:stream-reset", "fault:clock-jump", "fault:relay-restart"},
+		FaultKinds: []string{"fault:stream-reset", "fault:clock-jump", "fault:relay-restart", "fault:stream-closed-cleanly"},
 	})
 }
 
@@ -110,6 +110,12 @@ func (w *c23World) Actions(s *dsim.Sim, add func(dsim.Action)) {
 		}})
 	}
 	if w.resets < w.maxReset {
+		// (a stream may also end cleanly, io.EOF instead of an error)
+		w.cw.Net.CleanCloseActions(func(a dsim.Action) {
+			f := a.Fire
+			a.Fire = func() { w.resets++; f() }
+			add(a)
+		}, 1)
 		w.cw.Net.ResetActions(func(a dsim.Action) {
 			f := a.Fire
 			a.Fire = func() { w.resets++; f() }
